@@ -4,7 +4,15 @@
   (TWin (tw.b Bytes) (tw.lo (_ BitVec 64)) (tw.hi (_ BitVec 64)))   ; octets b[lo:hi] of a byte sequence
   (TRunes (tr.r Runes) (tr.lo (_ BitVec 64)) (tr.hi (_ BitVec 64))) ; UTF-8 of the whole code points r[lo:hi]
   (TStrBytes (ts.s Str))                                        ; the bytes of a Go string
-  (TVal (tv.id (_ BitVec 64)))                                  ; opaque
+  (TInt (ti.v (_ BitVec 32)))                                   ; one int value (any form chosen by encodeInt)
+  (TLong (tl.v (_ BitVec 64)))
+  (TDouble (td.v (_ FloatingPoint 11 53)))
+  (TBool (tbo.v Bool))
+  (TStr (tst.v Str))                                            ; one string value
+  (TBin (tbi.v Bytes))                                          ; one binary value
+  (TDate (tda.v Time))
+  (TVal (tv.v Iface))                                           ; one complete nested value (summary of a WriteData call)
+  (TRefVal (trv.v RV))
 )))
 (declare-datatypes ((Stream 0)) (((emp) (snoc (init Stream) (last Tok)))))
 (declare-fun streamOf (Bytes) Stream)
@@ -15,4 +23,14 @@
 ;@end
 ;@when s.runes
 (assert (forall ((s Str)) (! (and (bvule (rlen (s.runes s)) (s.len s)) (=> (not (= (s.len s) #x0000000000000000)) (not (= (rlen (s.runes s)) #x0000000000000000)))) :pattern ((s.runes s)))))
+;@end
+;@when s.ofbytes
+(assert (forall ((b Bytes)) (! (= (s.len (s.ofbytes b)) (blen b)) :pattern ((s.ofbytes b)))))
+(assert (forall ((b Bytes) (i (_ BitVec 64))) (! (=> (bvult i (blen b)) (= (s.at (s.ofbytes b) i) (select (barr b) i))) :pattern ((s.at (s.ofbytes b) i)))))
+;@end
+;@when s.arr
+(assert (forall ((s Str) (i (_ BitVec 64))) (! (= (select (s.arr s) i) (s.at s i)) :pattern ((select (s.arr s) i)))))
+;@end
+;@when s.len
+(assert (forall ((s Str)) (! (bvule (s.len s) #x0000010000000000) :pattern ((s.len s)))))
 ;@end
